@@ -1239,12 +1239,32 @@ type originSeed struct{ id, source, contract string }
 // reference ids: any string up to 32 bytes; some are prefixes / case variants of others
 var refIDs = []string{"VCS-001", "VCS-002", "R1", "BR-7", "R10", "r1", "VCS-0010", "Ünï 1", "R1 ", "0123456789abcdef0123456789abcdef"}
 
-var chainSpellings = []string{"polygon", "Polygon", "POLYGON", "ethereum", "Ethereum", "celo"}
+var chainSpellings = []string{"polygon", "Polygon", "POLYGON", "ethereum", "Ethereum", "celo", "kava", "Kava", "Osmosis-link"}
 
 func ethAddr(i int) string   { return fmt.Sprintf("0x%040x", 0xabc000+i) }
 func ethTxHash(i int) string { return fmt.Sprintf("0x%064x", 0x7a0000+i) }
 
+// lookalike: a name that is NOT a letter-case variant of n but that Unicode lower-casing folds onto it
+// (U+212A KELVIN SIGN -> k, U+0130 LATIN CAPITAL LETTER I WITH DOT ABOVE -> i)
+func lookalike(n string) (string, bool) {
+	for i, c := range n {
+		switch c {
+		case 'k', 'K':
+			return n[:i] + "\u212a" + n[i+1:], true
+		case 'i', 'I':
+			return n[:i] + "\u0130" + n[i+1:], true
+		}
+	}
+	return n, false
+}
+
 func (g *Gen) chainName(v *Snapshot, mode int) string {
+	if len(v.BridgeChains) > 0 && ((mode != ModeValid && g.R.Chance(0.3)) || g.R.Chance(0.08)) {
+		if l, ok := lookalike(v.BridgeChains[g.R.Intn(len(v.BridgeChains))].ChainName); ok {
+			g.W.Probe("chain_name_unicode_lookalike")
+			return l
+		}
+	}
 	if mode == ModeValid && len(v.BridgeChains) > 0 && g.R.Chance(0.8) {
 		n := v.BridgeChains[g.R.Intn(len(v.BridgeChains))].ChainName
 		if g.R.Chance(0.3) {
